@@ -16,12 +16,14 @@ func init() {
 	register(&Check{
 		ID:  "C09",
 		Run: runC09,
-		Explanation: "Decides that the configured limits are consulted wherever input-controlled data is materialised: (R1 plumbing) the limit-less decoders StreamDict.Decode / DecodeLength take their limit from the stream's own DecodeLimit (falling back to the package default only when it is zero); every types.NewStreamDict in the reader (pkg/pdfcpu) is followed on every success path by DecodeLimit = decodeLimit(ctx); StreamDict.Clone copies the whole struct (or DecodeLimit explicitly), so a stream migrated into another context keeps its limit; every explicit DecodeWithLimit / DecodeLengthWithLimit call passes a value derived from the configuration (decodeLimit(ctx), limits.MaxDecodeBytes, osd.MaxDecodeBytes, sd.decodeLimit()); filter.NewFilter is called with an explicit limit wherever a stream is decoded; (R2 filters) every implementor of filter.Filter (enumerated through go/types) reaches baseFilter.copyDecoded or consults decodeLimit in its DecodeLength; inside copyDecoded the unbounded io.Copy branches are reachable only for limit < 0 or == maxInt64; in every decoder that writes its output inside a loop after asking decodeLimit (run-length, predictor post-processing) each write is preceded, within the same innermost loop iteration, by a comparison involving the limit — a check hoisted out of the inner loop is rejected; (R3 encoded size) loadEncodedStreamContent reads through readStreamContent(…, streamLimit(ctx)); in readStreamContentBlindly every growth step of the buffer is clamped by the limit (first step) or by what is left of it (min / compare-and-assign against limit − len), so the end marker arriving in the last step cannot carry the result past MaxStreamBytes; (R4 liveness + accumulation) every field of model.ResourceLimits is read by a comparison in non-configuration code, and every limit comparison that sits in a loop which appends/allocates per iteration and subtracts or adds a running total uses a loop-carried accumulator that is actually updated in the loop (a running total that is never incremented makes the limit per-item instead of global). NOT decided: exactness at the boundary (C16), peak memory within a constant factor (a runtime quantity).",
+		Explanation: "Decides that the configured limits are consulted wherever input-controlled data is materialised: (R1 plumbing) the limit-less decoders StreamDict.Decode / DecodeLength take their limit from the stream's own DecodeLimit (falling back to the package default only when it is zero); every types.NewStreamDict in the reader (pkg/pdfcpu) is followed on every success path by DecodeLimit = decodeLimit(ctx); StreamDict.Clone copies the whole struct (or DecodeLimit explicitly), so a stream migrated into another context keeps its limit; every explicit DecodeWithLimit / DecodeLengthWithLimit call passes a value derived from the configuration (decodeLimit(ctx), limits.MaxDecodeBytes, osd.MaxDecodeBytes, sd.decodeLimit()); filter.NewFilter is called with an explicit limit wherever a stream is decoded; (R2 filters) every implementor of filter.Filter (enumerated through go/types) reaches baseFilter.copyDecoded or consults decodeLimit in its DecodeLength; inside copyDecoded the unbounded io.Copy branches are reachable only for limit < 0 or == maxInt64; in every decoder that writes its output inside a loop after asking decodeLimit (run-length, predictor post-processing) each write is preceded, within the same innermost loop iteration, by a comparison involving the limit — a check hoisted out of the inner loop is rejected; (R3 encoded size) loadEncodedStreamContent reads through readStreamContent(…, streamLimit(ctx)); in readStreamContentBlindly every growth step of the buffer is clamped by the limit (first step) or by what is left of it (min / compare-and-assign against limit − len), so the end marker arriving in the last step cannot carry the result past MaxStreamBytes; (R4 liveness + accumulation) every field of model.ResourceLimits is read by a comparison in non-configuration code, and every limit comparison that sits in a loop which appends/allocates per iteration and subtracts or adds a running total uses a loop-carried accumulator that is actually updated in the loop (a running total that is never incremented makes the limit per-item instead of global). (R5) every make([]T, n) with a non-constant n in pkg/filter is reached only where n is bounded: by data already in memory (len, hex.DecodedLen), by a comparison with the decode limit on every way in (a relational range argument over dominating branch edges with a case split over the ways into a block), or where no limit is configured; a length that is a parameter is checked at every call site. (R6) pdfImage, whose width/height/components size the render buffers, passes validatePDFImageDimensions on every success return — or every caller does after the call. NOT decided: exactness at the boundary (C16), peak memory within a constant factor (a runtime quantity).",
 		Rules: []string{
 			"C09.R1 flow: decode limits derive from the configuration at every decode site",
 			"C09.R2 siblings: every filter bounds its output; per-iteration limit checks in producing loops",
 			"C09.R3 MPT: encoded stream size bounded by streamLimit(ctx)",
 			"C09.R4 liveness: every ResourceLimits field is compared; running totals are loop-carried",
+			"C09.R6 MPT: image descriptors pass the image-limit validator where they are built (or in every caller)",
+			"C09.R5 range: sized allocations in pkg/filter are bounded (by data in memory or the decode limit) on every way in",
 		},
 		Assumptions: []string{"io.CopyN / io.LimitedReader bound what they copy"},
 		Technique:   "value-origin slicing of limit arguments; implementor enumeration via go/types with per-implementor reachability; per-iteration must-pass-through (facts killed at loop headers); loop-carried accumulator detection on SSA phis",
@@ -77,6 +79,10 @@ func runC09(c *Ctx) {
 	r.MinInst["C09.R2"] = 8
 	r.MinInst["C09.R3"] = 1
 	r.MinInst["C09.R4"] = 9
+	r.MinInst["C09.R5"] = 3
+	checkSizedAllocationsBounded(c)
+	r.MinInst["C09.R6"] = 1
+	checkValidatedConstructors(c)
 	// ---- R1 (a): limit-less decoders use the stream's own limit
 	for _, fid := range []string{"pkg/pdfcpu/types.(*StreamDict).Decode", "pkg/pdfcpu/types.(*StreamDict).DecodeLength"} {
 		fn := p.Func(fid)
@@ -773,6 +779,204 @@ func checkBoundedGrowth(c *Ctx) {
 		})
 		if n == 0 {
 			r.Bad("C09.R3", fid, "bounded growth", p.Pos(fn.Pos()), "UNRESOLVED-ANCHOR: no call of "+spec.grow)
+		}
+	}
+}
+
+// ---------------- C09.R5 (round 3 of seeding): sized allocations in the filters are bounded ----------------
+
+// proportionalToInput: a length derived from data that is already in memory.
+func proportionalToInput(v ssa.Value) bool {
+	switch x := v.(type) {
+	case *ssa.Call:
+		if b, ok := x.Call.Value.(*ssa.Builtin); ok && (b.Name() == "len" || b.Name() == "cap") {
+			return true
+		}
+		_, ref := callRef(x)
+		if ref == "encoding/hex.DecodedLen" || ref == "encoding/hex.EncodedLen" {
+			return len(x.Call.Args) == 1 && proportionalToInput(x.Call.Args[0])
+		}
+		if strings.HasSuffix(ref, ".Len") && len(x.Call.Args) == 1 {
+			return true // (*bytes.Buffer).Len and friends
+		}
+	case *ssa.Convert:
+		return proportionalToInput(x.X)
+	}
+	return c16LimitValue(v, 0)
+}
+
+// checkSizedAllocationsBounded: every make([]T, n) with a non-constant n in pkg/filter is reached only where n is
+// bounded — by data already in memory, or by a comparison with the decode limit on every way in — or where no
+// limit is configured (limit < 0). A length that comes in as a parameter is checked at every call site.
+func checkSizedAllocationsBounded(c *Ctx) {
+	p, r := c.P, c.R
+	cg := c.CG()
+	newProver := func(fn *ssa.Function) *c31Prover {
+		pr := newC31Prover(fn)
+		pr.pc = nil
+		pr.base = proportionalToInput
+		pr.unlimited = func(f c31Fact) bool {
+			// limit < 0  (the false edge of limit >= 0)
+			if f.kind == "LT" && c16LimitValue(f.a, 0) {
+				if n, ok := c31ConstInt(f.b); ok && n == 0 {
+					return true
+				}
+			}
+			return false
+		}
+		return pr
+	}
+	n := 0
+	for _, fn := range p.Funcs {
+		if fn.Pkg == nil || fn.Pkg.Pkg.Path() != modPath+"/pkg/filter" {
+			continue
+		}
+		fn := fn
+		fid := FuncID(fn)
+		k := 0
+		eachInstr(fn, func(b *ssa.BasicBlock, _ int, i ssa.Instruction) {
+			mk, ok := i.(*ssa.MakeSlice)
+			if !ok {
+				return
+			}
+			if _, isConst := mk.Len.(*ssa.Const); isConst {
+				return
+			}
+			k++
+			n++
+			construct := fmt.Sprintf("make#%d", k)
+			pos := p.Pos(mk.Pos())
+			pr := newProver(fn)
+			if pr.lep(mk.Len, c31Point{b: b}) {
+				r.OK("C09.R5", fid, construct, pos, "the length is bounded where the slice is made (data in memory, or compared with the decode limit on every way in)", true)
+				return
+			}
+			// a parameter: look at the call sites
+			lenV := mk.Len
+			if cv, ok := lenV.(*ssa.Convert); ok {
+				lenV = cv.X
+			}
+			prm, ok := lenV.(*ssa.Parameter)
+			idx := -1
+			if ok {
+				idx = paramIndex(fn, prm)
+			}
+			if idx < 0 {
+				r.Bad("C09.R5", fid, construct, pos, "a slice is allocated with a length that nothing on the way bounds: decode parameters taken from the file (columns, colours, bits) decide how much memory is allocated before any limit is consulted")
+				return
+			}
+			sites := 0
+			for _, caller := range cg.In[fn] {
+				caller := caller
+				eachInstr(caller, func(cb *ssa.BasicBlock, _ int, ci ssa.Instruction) {
+					call, ok := ci.(*ssa.Call)
+					if !ok {
+						return
+					}
+					if callee := staticCallee(call); callee == nil || unwrapSynthetic(callee) != fn {
+						return
+					}
+					args := call.Call.Args
+					if idx >= len(args) {
+						return
+					}
+					sites++
+					cpr := newProver(caller)
+					cc := fmt.Sprintf("%s <- %s", construct, FuncID(caller))
+					if cpr.lep(args[idx], c31Point{b: cb}) {
+						r.OK("C09.R5", fid, cc, p.Pos(call.Pos()), "the length handed in is bounded at the call (compared with the decode limit on every way in, or no limit configured)", true)
+					} else {
+						r.Bad("C09.R5", fid, cc, p.Pos(call.Pos()), "the length handed to "+fn.Name()+" (which allocates slices of that size) is not compared with the decode limit on every path to this call: a row size computed from the stream's decode parameters is allocated unchecked")
+					}
+				})
+			}
+			if sites == 0 {
+				r.Bad("C09.R5", fid, construct, pos, "UNDECIDED: the length is a parameter and no static call site was found")
+			}
+		})
+	}
+	if n == 0 {
+		r.Bad("C09.R5", "pkg/filter", "anchor", "", "UNRESOLVED-ANCHOR: no sized allocation found in pkg/filter")
+	}
+}
+
+// ---------------- C09.R6 (round 3 of seeding): image descriptors are validated where they are made ----------------
+
+// c09ValidatedConstructors: functions that build a descriptor whose dimensions size later allocations, and the
+// validator that compares those dimensions with the configured image limits.
+var c09ValidatedConstructors = map[string]string{
+	"pkg/pdfcpu.pdfImage": "pkg/pdfcpu.validatePDFImageDimensions",
+}
+
+// checkValidatedConstructors: every success return of the constructor has passed the validator; failing that,
+// every caller passes the validator on every success path after the call. A validation moved into ONE caller
+// leaves the other callers (the DCT/CMYK renderer) allocating width × height buffers from unchecked dimensions.
+func checkValidatedConstructors(c *Ctx) {
+	p, r := c.P, c.R
+	cg := c.CG()
+	for ctor, val := range c09ValidatedConstructors {
+		fn := p.Func(ctor)
+		if fn == nil {
+			r.Bad("C09.R6", ctor, "anchor", "", "UNRESOLVED-ANCHOR")
+			continue
+		}
+		passes := func(f *ssa.Function, after *ssa.Call) (ok bool, where string) {
+			ff := NewFactFlow(f, func(i ssa.Instruction) []string {
+				if call, isCall := i.(*ssa.Call); isCall {
+					if _, ref := callRef(call); ref == val {
+						return []string{"v"}
+					}
+				}
+				return nil
+			}, nil, nil, nil)
+			var reach map[*ssa.BasicBlock]bool
+			if after != nil {
+				reach = reachableBlocks(after.Block())
+				reach[after.Block()] = true
+			}
+			for _, ret := range returnsOf(f) {
+				if reach != nil && !reach[ret.Block()] {
+					continue
+				}
+				if len(ret.Results) == 0 {
+					continue
+				}
+				// an error return hands nothing on; a return whose error may be nil is a success path
+				if k, has := returnErrKind(ret); has && k == errNonNil {
+					continue
+				}
+				if !ff.Holds(ret, "v") {
+					return false, posOrFn(p, ret, f)
+				}
+			}
+			return true, ""
+		}
+		if ok, _ := passes(fn, nil); ok {
+			r.OK("C09.R6", ctor, "validated at construction", p.Pos(fn.Pos()), "every success return has passed "+val, true)
+			continue
+		}
+		sites := 0
+		for _, caller := range cg.In[fn] {
+			caller := caller
+			eachInstr(caller, func(_ *ssa.BasicBlock, _ int, i ssa.Instruction) {
+				call, isCall := i.(*ssa.Call)
+				if !isCall {
+					return
+				}
+				if callee := staticCallee(call); callee == nil || unwrapSynthetic(callee) != fn {
+					return
+				}
+				sites++
+				construct := fmt.Sprintf("caller %s#%d", FuncID(caller), sites)
+				if ok, where := passes(caller, call); ok {
+					r.OK("C09.R6", ctor, construct, p.Pos(call.Pos()), "the constructor does not validate, but this caller passes "+val+" on every success path after the call", true)
+				} else {
+					r.Bad("C09.R6", ctor, construct, p.Pos(call.Pos()), "the descriptor is built without "+val+" and this caller reaches a success return ("+where+") without it either: width × height buffers are then allocated from dimensions taken from the file, with no comparison against the configured image limits")
+				}
+			})
+		}
+		if sites == 0 {
+			r.Bad("C09.R6", ctor, "validated at construction", p.Pos(fn.Pos()), "the constructor no longer validates and has no static caller that could: "+val+" is not on the way to a success return")
 		}
 	}
 }
